@@ -7,6 +7,7 @@ Environment: the validator is a callback point (raise at the k-th item), the
 iterable argument may raise at its k-th element, gc at callback points.
 """
 from ..core import Violation, stream, sut, exc_name, InjectedFault
+from ..core import deep
 from ..values import CUR, ModelTraitError, raw, mval, make_validator, RaisingIter
 
 ID = "C05"
@@ -227,7 +228,7 @@ class Prop:
         n0 = cfg_r.choice([0, 0, 1, 2, 3, 4, 5, 5, 6, 7])
         listeners = [cfg_r.choice(["raw", "raw", "obs"])
                      for _ in range(cfg_r.randint(1, 3))]
-        nops = cfg_r.choice([3, 5, 8, 12, 18, 25])
+        nops = deep(cfg_r, [3, 5, 8, 12, 18, 25], [40, 70])
         fault_rate = cfg_r.choice([0.0, 0.0, 0.05, 0.15]) if vkind == "point" else 0.0
         invalid_rate = cfg_r.choice([0.0, 0.05, 0.15]) if vkind != "none" else 0.0
         ctr = [100]
